@@ -117,6 +117,13 @@ func (p *Prog) RunUnit(key string) *UnitResult {
 		for _, invs := range c.Invs {
 			for _, inv := range invs {
 				for _, l := range inv.Labels {
+					if strings.HasPrefix(l, "assumed-") {
+						// an assumed invariant is active in every run; its
+						// init/preservation obligations carry the assumed-* label
+						// (so they count for no property) and the clause is listed
+						// among the assumptions in the evidence
+						continue
+					}
 					views[labelProp(l)] = true
 				}
 			}
